@@ -92,3 +92,609 @@ Proof.
     + exists [], f. split; [reflexivity|]. split; [exact En|]. intros [].
     + inversion Ha as [|? ? Hfg _]; subst. exfalso. exact (nlt_plain_false _ Hfg).
 Qed.
+
+(* ================================================================== file-system primitives *)
+Lemma lookup_name_none n fs : lookup_name n fs = None <-> ~ In n (names fs).
+Proof.
+  induction fs as [|f t IH]; cbn; [tauto|]. destruct (name_eqb (f_name f) n) eqn:E.
+  - apply name_eqb_eq in E. split; [discriminate|]. intros H. exfalso. apply H. left. exact E.
+  - rewrite IH. split; [intros H [H1|H1]; [subst; rewrite name_eqb_refl in E; discriminate|contradiction]|tauto].
+Qed.
+Lemma lookup_name_some n fs f : lookup_name n fs = Some f -> In f fs /\ f_name f = n.
+Proof.
+  induction fs as [|g t IH]; cbn; [discriminate|]. destruct (name_eqb (f_name g) n) eqn:E.
+  - intros H. inversion H; subst. apply name_eqb_eq in E. tauto.
+  - intros H. destruct (IH H). tauto.
+Qed.
+Lemma lookup_name_last n fs p : ~ In n (names fs) -> f_name p = n -> lookup_name n (fs ++ [p]) = Some p.
+Proof.
+  induction fs as [|g t IH]; cbn; intros Hn Hp.
+  - rewrite Hp, name_eqb_refl. reflexivity.
+  - rewrite name_eqb_neq by (intros E; apply Hn; left; exact E). apply IH; [tauto|exact Hp].
+Qed.
+Lemma has_name_in n fs : has_name n fs = true <-> In n (names fs).
+Proof.
+  unfold has_name, names. rewrite existsb_exists. split.
+  - intros [f [Hf He]]. apply name_eqb_eq in He. subst. apply in_map. exact Hf.
+  - intros Hin. apply in_map_iff in Hin as [f [Hf Hin]]. exists f. split; [exact Hin|]. rewrite Hf. apply name_eqb_refl.
+Qed.
+Lemma fs_remove_notin n fs : ~ In n (names fs) -> fs_remove n fs = fs.
+Proof.
+  unfold fs_remove. induction fs as [|g t IH]; cbn [filter names map]; intros Hn; [reflexivity|].
+  rewrite name_eqb_neq by (intros E; apply Hn; left; exact E). cbn [negb]. rewrite IH; [reflexivity|]. intros H. apply Hn. right. exact H.
+Qed.
+Lemma in_fs_remove n fs f : In f (fs_remove n fs) -> In f fs /\ f_name f <> n.
+Proof.
+  unfold fs_remove. rewrite filter_In. intros [H1 H2]. split; [exact H1|]. intros E. rewrite E, name_eqb_refl in H2. discriminate.
+Qed.
+
+(* a map that keeps inode and data (rename, chmod) *)
+Definition keeps (g : file -> file) : Prop := forall f, f_ino (g f) = f_ino f /\ f_data (g f) = f_data f.
+Lemma inos_keeps g fs : keeps g -> inos (map g fs) = inos fs.
+Proof. intros Hg. unfold inos. rewrite map_map. apply map_ext. intros f. apply Hg. Qed.
+Lemma contents_keeps g fs : keeps g -> contents (map g fs) = contents fs.
+Proof. intros Hg. unfold contents. rewrite map_map. f_equal. apply map_ext. intros f. apply Hg. Qed.
+Lemma keeps_chmod n m : keeps (fun f => if name_eqb (f_name f) n then set_mode f m else f).
+Proof. intros f. destruct (name_eqb (f_name f) n); split; reflexivity. Qed.
+Lemma keeps_rename o n : keeps (fun f => if name_eqb (f_name f) o then set_name f n else f).
+Proof. intros f. destruct (name_eqb (f_name f) o); split; reflexivity. Qed.
+Lemma names_chmod n m fs : names (fs_chmod n m fs) = names fs.
+Proof. unfold names, fs_chmod. rewrite map_map. apply map_ext. intros f. destruct (name_eqb (f_name f) n); reflexivity. Qed.
+Lemma fs_chmod_data n m fs f : In f (fs_chmod n m fs) -> exists g, In g fs /\ f_name f = f_name g /\ f_data f = f_data g.
+Proof.
+  unfold fs_chmod. intros H. apply in_map_iff in H as [g [E Hg]]. exists g. split; [exact Hg|].
+  subst f. destruct (name_eqb (f_name g) n); split; reflexivity.
+Qed.
+
+(* renaming the last file of the directory, whose name occurs nowhere else, to a name that does not exist *)
+Lemma rename_map_notin o n fs : ~ In o (names fs) ->
+  map (fun f => if name_eqb (f_name f) o then set_name f n else f) fs = fs.
+Proof.
+  induction fs as [|g t IH]; cbn; intros Hn; [reflexivity|].
+  rewrite name_eqb_neq by (intros E; apply Hn; left; exact E). rewrite IH; [reflexivity|tauto].
+Qed.
+Lemma fs_rename_last fs' p n : ~ In (f_name p) (names fs') -> ~ In n (names (fs' ++ [p])) ->
+  fs_rename (f_name p) n (fs' ++ [p]) = Some (fs' ++ [set_name p n]).
+Proof.
+  intros Ho Hn. unfold fs_rename.
+  assert (Hh : has_name (f_name p) (fs' ++ [p]) = true).
+  { apply has_name_in. rewrite names_app. apply in_or_app. right. left. reflexivity. }
+  rewrite Hh. rewrite name_eqb_neq.
+  - rewrite fs_remove_notin by exact Hn. rewrite map_app. rewrite rename_map_notin by exact Ho.
+    cbn [map]. rewrite name_eqb_refl. reflexivity.
+  - intros E. apply Hn. rewrite names_app. apply in_or_app. right. left. exact E.
+Qed.
+Lemma fs_rename_none o n fs : fs_rename o n fs = None <-> ~ In o (names fs).
+Proof.
+  unfold fs_rename. destruct (has_name o fs) eqn:E.
+  - apply has_name_in in E. destruct (name_eqb o n); split; try discriminate; tauto.
+  - split; [|reflexivity]. intros _ H. apply has_name_in in H. congruence.
+Qed.
+
+(* write(2) on the descriptor of the last file *)
+Lemma fs_append_notin i x fs : ~ In i (inos fs) -> fs_append i x fs = fs.
+Proof.
+  induction fs as [|g t IH]; cbn; intros Hn; [reflexivity|].
+  destruct (N.eqb (f_ino g) i) eqn:E; [apply N.eqb_eq in E; exfalso; apply Hn; left; exact E|].
+  unfold fs_append in IH. rewrite IH; [reflexivity|tauto].
+Qed.
+Lemma fs_append_last fs' p x : ~ In (f_ino p) (inos fs') -> fs_append (f_ino p) x (fs' ++ [p]) = fs' ++ [add_data p x].
+Proof.
+  intros Hn. unfold fs_append. rewrite map_app. fold (fs_append (f_ino p) x fs'). rewrite fs_append_notin by exact Hn.
+  cbn [map]. rewrite N.eqb_refl. reflexivity.
+Qed.
+Lemma sorted_inos_last fs' p : StronglySorted N.lt (inos (fs' ++ [p])) -> ~ In (f_ino p) (inos fs').
+Proof.
+  rewrite inos_app. intros Hs Hin. apply sorted_app_inv in Hs as [_ [_ H]].
+  specialize (H (f_ino p) (f_ino p) Hin (or_introl eq_refl)). lia.
+Qed.
+
+(* ================================================================== the structural invariant *)
+Record sinv (c : cfg) (w : world) : Prop := {
+  i_sorted : StronglySorted nlt (names (files w));       (* list order = reading order; sink names pairwise distinct *)
+  i_below : below (clock w) (files w);                   (* every stamp is a past clock reading *)
+  i_open : forall i nm, fopen w = Some (i, nm) ->        (* the descriptor is the last file of the directory *)
+           exists fs' p, files w = fs' ++ [p] /\ f_ino p = i /\ is_foreign (f_name p) = false;
+  i_mode : modeA c = true -> ~ In NPlain (names (files w));
+  i_foreign : forall f, In f (files w) -> is_foreign (f_name f) = true -> f_data f = [];
+  i_inos : StronglySorted N.lt (inos (files w));         (* creation order; inodes distinct *)
+  i_next : forall i, In i (inos (files w)) -> (i < next_ino w)%N;
+}.
+(* what a reader of the directory plus the retention ghost sees *)
+Definition D (w : world) : list N := pruned w ++ contents (files w).
+
+Ltac conj := repeat match goal with |- _ /\ _ => split end.
+Ltac projs := cbn [files dirmode fopen bw lc clock next_ino acked pruned since_open sout serr
+                   set_files set_fopen set_clock set_pruned ack] in *.
+
+Lemma sinv_set_clock c w k : sinv c w -> clock w <= k -> sinv c (set_clock w k).
+Proof.
+  intros [H1 H2 H3 H4 H5 H6 H7] Hk. constructor; projs; auto. intros t Hin. specialize (H2 t Hin). lia.
+Qed.
+Lemma sinv_close c w : sinv c w -> sinv c (set_fopen w None).
+Proof. intros [H1 H2 H3 H4 H5 H6 H7]. constructor; projs; auto. discriminate. Qed.
+
+Lemma newFileName_cases c t : (modeA c = true /\ newFileName c t = NStamp t) \/ (modeA c = false /\ newFileName c t = NPlain).
+Proof. unfold newFileName, modeA. destruct (tsOnly c); cbn; [right; tauto|]. destruct (rotateEnabled c); [left|right]; tauto. Qed.
+
+Lemma do_open_open c w t x : fopen w = Some x -> do_open c w t = w.
+Proof. unfold do_open. intros ->. reflexivity. Qed.
+
+Lemma sinv_open c w t : sinv c w -> clock w < t -> sinv c (do_open c w t).
+Proof.
+  intros Hi Ht. pose proof Hi as [H1 H2 H3 H4 H5 H6 H7]. unfold do_open.
+  destruct (fopen w) as [x|] eqn:Eo; [exact Hi|].
+  destruct (lookup_name (newFileName c t) (files w)) as [f|] eqn:El.
+  - (* the file exists: it is the plain-named last file *)
+    apply lookup_name_some in El as [Hf Hn].
+    assert (Hpl : newFileName c t = NPlain).
+    { destruct (newFileName_cases c t) as [[_ E]|[_ E]]; [|exact E]. exfalso. rewrite E in Hn.
+      assert (Hin : In (NStamp t) (names (files w))) by (rewrite <- Hn; apply in_map; exact Hf).
+      specialize (H2 t Hin). lia. }
+    rewrite Hpl in *.
+    assert (Hin : In NPlain (names (files w))) by (rewrite <- Hn; apply in_map; exact Hf).
+    destruct (sorted_plain_last _ H1 Hin) as [fs' [p [E [Hp Hnp]]]].
+    assert (Hfp : f = p).
+    { rewrite E in Hf. apply in_app_or in Hf as [Hf|[Hf|[]]]; [|auto]. exfalso. apply Hnp. rewrite <- Hn. apply in_map. exact Hf. }
+    subst f.
+    assert (Hfiles : exists fs2 p2, (if N.eqb (cmode c) 0 then files w else fs_chmod NPlain (cmode c) (files w)) = fs2 ++ [p2] /\
+                     f_ino p2 = f_ino p /\ f_name p2 = NPlain /\ names (fs2 ++ [p2]) = names (files w) /\ inos (fs2 ++ [p2]) = inos (files w) /\
+                     (forall g, In g (fs2 ++ [p2]) -> exists g0, In g0 (files w) /\ f_name g = f_name g0 /\ f_data g = f_data g0)).
+    { destruct (N.eqb (cmode c) 0).
+      - exists fs', p. rewrite E. repeat split; auto. intros g Hg. exists g. auto.
+      - set (g := fun f => if name_eqb (f_name f) NPlain then set_mode f (cmode c) else f).
+        assert (Hgi : f_ino (g p) = f_ino p) by (unfold g; rewrite Hp; reflexivity).
+        assert (Hgn : f_name (g p) = NPlain) by (unfold g; rewrite Hp; cbn; exact Hp).
+        assert (Hm : fs_chmod NPlain (cmode c) (files w) = map g fs' ++ [g p]).
+        { rewrite E. unfold fs_chmod. rewrite map_app. reflexivity. }
+        exists (map g fs'), (g p). split; [exact Hm|]. split; [exact Hgi|]. split; [exact Hgn|]. rewrite <- Hm.
+        split; [apply names_chmod|]. split; [apply inos_keeps; apply keeps_chmod|]. apply fs_chmod_data. }
+    destruct Hfiles as [fs2 [p2 [Ef [Hi2 [Hn2 [Hnm [Hin2 Hd]]]]]]].
+    constructor; projs; rewrite Ef.
+    + rewrite Hnm. exact H1.
+    + intros t0 Ht0. rewrite Hnm in Ht0. specialize (H2 t0 Ht0). lia.
+    + intros i nm Hs. inversion Hs; subst. exists fs2, p2. split; [reflexivity|]. split; [exact Hi2|]. rewrite Hn2. reflexivity.
+    + rewrite Hnm. exact H4.
+    + intros g Hg Hfo. destruct (Hd g Hg) as [g0 [Hg0 [En Ed]]]. rewrite Ed. apply H5; [exact Hg0|]. rewrite <- En. exact Hfo.
+    + rewrite Hin2. exact H6.
+    + rewrite Hin2. exact H7.
+  - (* a new file is created at the end of the directory *)
+    apply lookup_name_none in El.
+    constructor; projs.
+    + rewrite names_app. cbn [names map f_name]. apply sorted_snoc; [exact H1|]. intros x Hx.
+      destruct x as [k|tx|]; [exact I| |].
+      * specialize (H2 tx Hx). destruct (newFileName_cases c t) as [[_ E]|[_ E]]; rewrite E; cbn; [lia|exact I].
+      * exfalso. destruct (newFileName_cases c t) as [[Hm E]|[_ E]]; [exact (H4 Hm Hx)|]. rewrite E in El. contradiction.
+    + intros t0 Hin. rewrite names_app in Hin. apply in_app_or in Hin as [Hin|[Hin|[]]].
+      * specialize (H2 t0 Hin). lia.
+      * cbn [f_name] in Hin. destruct (newFileName_cases c t) as [[_ E]|[_ E]]; rewrite E in Hin; inversion Hin. lia.
+    + intros i nm Hs. inversion Hs; subst. eexists _, _. split; [reflexivity|]. split; [reflexivity|]. cbn [f_name].
+      destruct (newFileName_cases c t) as [[_ E]|[_ E]]; rewrite E; reflexivity.
+    + intros Hm Hin. rewrite names_app in Hin. apply in_app_or in Hin as [Hin|[Hin|[]]]; [exact (H4 Hm Hin)|].
+      cbn [f_name] in Hin. destruct (newFileName_cases c t) as [[_ E]|[Hm2 _]]; [rewrite E in Hin; discriminate|congruence].
+    + intros g Hg Hfo. apply in_app_or in Hg as [Hg|[Hg|[]]]; [exact (H5 g Hg Hfo)|]. subst g. reflexivity.
+    + rewrite inos_app. cbn [inos map f_ino]. apply sorted_snoc; [exact H6|]. intros x Hx. exact (H7 x Hx).
+    + intros i Hin. rewrite inos_app in Hin. apply in_app_or in Hin as [Hin|[Hin|[]]].
+      * specialize (H7 i Hin). lia.
+      * cbn [f_ino] in Hin. lia.
+Qed.
+
+Lemma D_open c w t : sinv c w -> D (do_open c w t) = D w.
+Proof.
+  intros Hi. unfold do_open. destruct (fopen w); [reflexivity|].
+  destruct (lookup_name (newFileName c t) (files w)) eqn:El; unfold D; projs.
+  - destruct (N.eqb (cmode c) 0); [reflexivity|]. unfold fs_chmod. rewrite contents_keeps by apply keeps_chmod. reflexivity.
+  - rewrite contents_app. unfold contents at 2. cbn. rewrite app_nil_r. reflexivity.
+Qed.
+Lemma do_open_fopen c w t : exists x, fopen (do_open c w t) = Some x.
+Proof.
+  unfold do_open. destruct (fopen w) eqn:E; [eexists; exact E|]. destruct (lookup_name _ _); eexists; reflexivity.
+Qed.
+Lemma do_open_clock c w t : clock (do_open c w t) = match fopen w with Some _ => clock w | None => t end.
+Proof. unfold do_open. destruct (fopen w); [reflexivity|]. destruct (lookup_name _ _); reflexivity. Qed.
+Lemma do_open_acked c w t : acked (do_open c w t) = acked w.
+Proof. unfold do_open. destruct (fopen w); [reflexivity|]. destruct (lookup_name _ _); reflexivity. Qed.
+
+(* ---------- renaming the last file to a fresh stamp (rotation in TimestampOnlyOnRotate mode; external rename) ---------- *)
+Lemma last_name_unique c w fs' p : sinv c w -> files w = fs' ++ [p] -> is_foreign (f_name p) = false -> ~ In (f_name p) (names fs').
+Proof.
+  intros Hi E Hnf Hin. pose proof (i_sorted _ _ Hi) as Hs. rewrite E, names_app in Hs.
+  apply sorted_app_inv in Hs as [_ [_ H]]. specialize (H _ (f_name p) Hin (or_introl eq_refl)).
+  exact (nlt_irrefl_sink _ Hnf H).
+Qed.
+Lemma fresh_stamp_notin c w t : sinv c w -> clock w < t -> ~ In (NStamp t) (names (files w)).
+Proof. intros Hi Ht Hin. pose proof (i_below _ _ Hi t Hin). lia. Qed.
+
+Lemma sinv_rename_last c w fs' p t :
+  sinv c w -> files w = fs' ++ [p] -> is_foreign (f_name p) = false -> clock w < t ->
+  (forall i nm, fopen w = Some (i, nm) -> i = f_ino p) ->
+  fs_rename (f_name p) (NStamp t) (files w) = Some (fs' ++ [set_name p (NStamp t)]) /\
+  sinv c (set_clock (set_files w (fs' ++ [set_name p (NStamp t)])) t) /\
+  contents (fs' ++ [set_name p (NStamp t)]) = contents (files w).
+Proof.
+  intros Hi E Hnf Ht Hop. pose proof Hi as [H1 H2 H3 H4 H5 H6 H7].
+  pose proof (last_name_unique _ _ _ _ Hi E Hnf) as Hu.
+  pose proof (fresh_stamp_notin _ _ _ Hi Ht) as Hfr.
+  split; [|split].
+  - rewrite E. apply fs_rename_last; [exact Hu|]. rewrite <- E. exact Hfr.
+  - rewrite E, names_app in H1. apply sorted_app_inv in H1 as [Hs1 [_ Hlt]].
+    constructor; projs.
+    + rewrite names_app. cbn [names map set_name f_name]. apply sorted_snoc; [exact Hs1|]. intros x Hx.
+      destruct x as [k|tx|]; [exact I| |].
+      * cbn. assert (Hin : In (NStamp tx) (names (files w))) by (rewrite E, names_app; apply in_or_app; left; exact Hx).
+        specialize (H2 tx Hin). lia.
+      * exfalso. exact (nlt_plain_false _ (Hlt NPlain (f_name p) Hx (or_introl eq_refl))).
+    + intros t0 Hin. rewrite names_app in Hin. apply in_app_or in Hin as [Hin|[Hin|[]]].
+      * assert (Hin2 : In (NStamp t0) (names (files w))) by (rewrite E, names_app; apply in_or_app; left; exact Hin).
+        specialize (H2 t0 Hin2). lia.
+      * cbn in Hin. inversion Hin. lia.
+    + intros i nm Hs. exists fs', (set_name p (NStamp t)). split; [reflexivity|]. split; [cbn; symmetry; exact (Hop i nm Hs)|reflexivity].
+    + intros Hm Hin. rewrite names_app in Hin. apply in_app_or in Hin as [Hin|[Hin|[]]]; [|discriminate].
+      apply (H4 Hm). rewrite E, names_app. apply in_or_app. left. exact Hin.
+    + intros g Hg Hfo. apply in_app_or in Hg as [Hg|[Hg|[]]]; [|subst g; discriminate].
+      apply H5; [rewrite E; apply in_or_app; left; exact Hg|exact Hfo].
+    + rewrite E, inos_app in H6. rewrite inos_app. exact H6.
+    + intros i Hin. apply H7. rewrite E, inos_app. rewrite inos_app in Hin. exact Hin.
+  - rewrite E, !contents_app. reflexivity.
+Qed.
+
+(* ---------- pruneFiles ---------- *)
+Lemma isort_sorted l : StronglySorted Z.lt l -> isort l = l.
+Proof.
+  induction l as [|a t IH]; intros Hs; [reflexivity|]. inversion Hs as [|? ? Ht Ha]; subst. cbn [isort]. rewrite IH by exact Ht.
+  destruct t as [|b t']; [reflexivity|]. cbn [ins]. inversion Ha; subst. replace (a <=? b) with true by lia. reflexivity.
+Qed.
+Lemma stamps_of_in fs t : In t (stamps_of fs) <-> In (NStamp t) (names fs).
+Proof.
+  induction fs as [|f r IH]; cbn [stamps_of names map]; [tauto|]. destruct (f_name f) eqn:En; cbn [In]; rewrite IH.
+  - split; [tauto|]. intros [H|H]; [discriminate|exact H].
+  - split; (intros [H|H]; [left; congruence|right; exact H]).
+  - split; [tauto|]. intros [H|H]; [discriminate|exact H].
+Qed.
+Lemma stamps_of_sorted fs : StronglySorted nlt (names fs) -> StronglySorted Z.lt (stamps_of fs).
+Proof.
+  induction fs as [|f r IH]; cbn [stamps_of names map]; intros Hs; [constructor|]. inversion Hs as [|? ? Ht Ha]; subst.
+  destruct (f_name f) eqn:En; try (apply IH; exact Ht). constructor; [apply IH; exact Ht|].
+  rewrite Forall_forall in *. intros x Hx. apply stamps_of_in in Hx. exact (Ha _ Hx).
+Qed.
+
+(* removing the oldest stamped file *)
+Lemma remove_first_stamp fs v rest :
+  StronglySorted nlt (names fs) -> (forall f, In f fs -> is_foreign (f_name f) = true -> f_data f = []) ->
+  stamps_of fs = v :: rest ->
+  stamps_of (fs_remove (NStamp v) fs) = rest /\ contents fs = data_of (NStamp v) fs ++ contents (fs_remove (NStamp v) fs).
+Proof.
+  unfold data_of, fs_remove. induction fs as [|f r IH]; cbn [stamps_of names map filter lookup_name]; intros Hs Hfo Hst; [discriminate|].
+  inversion Hs as [|? ? Ht Ha]; subst. destruct (f_name f) eqn:En.
+  - cbn [name_eqb negb]. cbn [stamps_of]. rewrite En.
+    destruct (IH Ht (fun g Hg => Hfo g (or_intror Hg)) Hst) as [I1 I2]. split; [exact I1|].
+    rewrite !contents_cons. rewrite (Hfo f (or_introl eq_refl)) by (rewrite En; reflexivity). cbn [app]. exact I2.
+  - inversion Hst; subst. cbn [name_eqb]. rewrite Z.eqb_refl. cbn [negb].
+    assert (Hnot : ~ In (NStamp v) (names r)).
+    { intros Hin. rewrite Forall_forall in Ha. specialize (Ha _ Hin). cbn in Ha. lia. }
+    fold (fs_remove (NStamp v) r). rewrite fs_remove_notin by exact Hnot. split; reflexivity.
+  - destruct r as [|g r']; [discriminate|]. inversion Ha as [|? ? Hfg _]; subst. exfalso. exact (nlt_plain_false _ Hfg).
+Qed.
+
+Lemma sinv_removed c w n p2 : sinv c w -> fopen w = None -> sinv c (set_pruned w (fs_remove n (files w)) p2).
+Proof.
+  intros [H1 H2 H3 H4 H5 H6 H7] Ho. constructor; projs.
+  - apply sorted_filter. exact H1.
+  - intros t Hin. apply in_map_iff in Hin as [f [Ef Hf]]. apply in_fs_remove in Hf as [Hf _]. apply H2. rewrite <- Ef. apply in_map. exact Hf.
+  - rewrite Ho. discriminate.
+  - intros Hm Hin. apply in_map_iff in Hin as [f [Ef Hf]]. apply in_fs_remove in Hf as [Hf _]. apply (H4 Hm). rewrite <- Ef. apply in_map. exact Hf.
+  - intros f Hf. apply in_fs_remove in Hf as [Hf _]. exact (H5 f Hf).
+  - apply sorted_filter. exact H6.
+  - intros i Hin. apply in_map_iff in Hin as [f [Ef Hf]]. apply in_fs_remove in Hf as [Hf _]. apply H7. rewrite <- Ef. apply in_map. exact Hf.
+Qed.
+
+Lemma remove_all_spec c j : forall w, sinv c w -> fopen w = None ->
+  let w' := remove_all (firstn j (stamps_of (files w))) w in
+  sinv c w' /\ fopen w' = None /\ D w' = D w /\ acked w' = acked w /\ clock w' = clock w /\
+  stamps_of (files w') = skipn j (stamps_of (files w)) /\
+  (forall f, In f (files w') -> In f (files w)) /\
+  (forall f, In f (files w) -> is_stamp (f_name f) = false -> In f (files w')).
+Proof.
+  induction j as [|j IH]; intros w Hi Ho; cbn [firstn remove_all].
+  - cbn [skipn]. conj; auto.
+  - destruct (stamps_of (files w)) as [|v rest] eqn:Est; cbn [remove_all skipn].
+    + cbn [firstn remove_all]. rewrite Est. conj; auto.
+    + destruct (remove_first_stamp _ _ _ (i_sorted _ _ Hi) (i_foreign _ _ Hi) Est) as [R1 R2].
+      set (w1 := set_pruned w (fs_remove (NStamp v) (files w)) (pruned w ++ data_of (NStamp v) (files w))).
+      assert (Hi1 : sinv c w1) by (apply sinv_removed; assumption).
+      assert (Ho1 : fopen w1 = None) by exact Ho.
+      assert (Est1 : stamps_of (files w1) = rest) by exact R1.
+      specialize (IH w1 Hi1 Ho1). rewrite Est1 in IH. cbn zeta in IH |- *.
+      destruct IH as [A1 [A2 [A3 [A4 [A5 [A6 [A7 A8]]]]]]]. conj; auto.
+      * rewrite A3. unfold D, w1. projs. rewrite <- app_assoc, <- R2. reflexivity.
+      * intros f Hf. apply A7 in Hf. unfold w1 in Hf. projs. apply in_fs_remove in Hf. tauto.
+      * intros f Hf Hns. apply A8; [|exact Hns]. unfold w1. projs. unfold fs_remove. apply filter_In. split; [exact Hf|].
+        destruct (f_name f); cbn in *; try reflexivity. discriminate.
+Qed.
+
+Lemma glob_sorted_eq c w : sinv c w -> glob_sorted (files w) = stamps_of (files w).
+Proof. intros Hi. unfold glob_sorted. apply isort_sorted. apply stamps_of_sorted. exact (i_sorted _ _ Hi). Qed.
+
+Lemma prune_n_spec c w j : sinv c w -> fopen w = None ->
+  let w' := prune_n j c w in
+  sinv c w' /\ fopen w' = None /\ D w' = D w /\ acked w' = acked w /\ clock w' = clock w /\
+  (forall f, In f (files w') -> In f (files w)) /\
+  (forall f, In f (files w) -> is_stamp (f_name f) = false -> In f (files w')).
+Proof.
+  intros Hi Ho. unfold prune_n. destruct (special c || N.eqb (maxFiles c) 0); [cbn zeta; conj; auto|].
+  rewrite (glob_sorted_eq _ _ Hi).
+  destruct (remove_all_spec c (Nat.min j (stale_count c w)) w Hi Ho) as [A1 [A2 [A3 [A4 [A5 [A6 [A7 A8]]]]]]].
+  cbn zeta. conj; auto.
+Qed.
+Lemma prune_spec c w : sinv c w -> fopen w = None ->
+  sinv c (prune c w) /\ fopen (prune c w) = None /\ D (prune c w) = D w /\ acked (prune c w) = acked w /\ clock (prune c w) = clock w.
+Proof. intros Hi Ho. destruct (prune_n_spec c w (stale_count c w) Hi Ho) as [A1 [A2 [A3 [A4 [A5 _]]]]]. unfold prune. auto. Qed.
+
+(* ---------- write(2) ---------- *)
+Lemma append_spec c w x size cnt : sinv c w ->
+  sinv c (append_chunk w x size cnt) /\
+  ((exists o, fopen w = Some o) -> D (append_chunk w x size cnt) = D w ++ [x]) /\
+  acked (append_chunk w x size cnt) = acked w /\ clock (append_chunk w x size cnt) = clock w /\
+  fopen (append_chunk w x size cnt) = fopen w.
+Proof.
+  intros Hi. unfold append_chunk. destruct (fopen w) as [[i nm]|] eqn:Eo.
+  2:{ conj; auto. intros [o Ho]. discriminate. }
+  pose proof Hi as [H1 H2 H3 H4 H5 H6 H7]. destruct (H3 i nm Eo) as [fs' [p [E [Hp Hnf]]]].
+  assert (Ea : fs_append i x (files w) = fs' ++ [add_data p x]).
+  { rewrite E, <- Hp. apply fs_append_last. apply sorted_inos_last. rewrite <- E. exact H6. }
+  conj; projs; auto.
+  - constructor; projs; rewrite Ea.
+    + rewrite E, names_app in H1. rewrite names_app. exact H1.
+    + intros t Hin. apply H2. rewrite E, names_app. rewrite names_app in Hin. exact Hin.
+    + intros i0 nm0 Hs. inversion Hs; subst i0 nm0. exists fs', (add_data p x). auto.
+    + intros Hm Hin. apply (H4 Hm). rewrite E, names_app. rewrite names_app in Hin. exact Hin.
+    + intros g Hg Hfo. apply in_app_or in Hg as [Hg|[Hg|[]]].
+      * apply H5; [rewrite E; apply in_or_app; left; exact Hg|exact Hfo].
+      * subst g. cbn in Hfo. congruence.
+    + rewrite E, inos_app in H6. rewrite inos_app. exact H6.
+    + intros i0 Hin. apply H7. rewrite E, inos_app. rewrite inos_app in Hin. exact Hin.
+  - intros _. unfold D. projs. rewrite Ea, E, !contents_app. unfold contents at 2 4. cbn [map concat add_data f_data].
+    rewrite !app_nil_r, !app_assoc. reflexivity.
+Qed.
+
+(* ---------- rotate ---------- *)
+Definition good (c : cfg) (w0 : world) (k : Z) (w' : world) : Prop :=
+  sinv c w' /\ D w' = D w0 /\ acked w' = acked w0 /\ clock w' <= k.
+
+Lemma prune_points_good c w k : sinv c w -> fopen w = None -> clock w <= k -> Forall (good c w k) (prune_points c w).
+Proof.
+  intros Hi Ho Hk. unfold prune_points. apply Forall_forall. intros w' Hin. apply in_map_iff in Hin as [j [<- _]].
+  destruct (prune_n_spec c w j Hi Ho) as [A1 [A2 [A3 [A4 [A5 _]]]]]. cbn zeta in *. unfold good. conj; auto. lia.
+Qed.
+
+Lemma good_trans c w0 w1 k w' : D w1 = D w0 -> acked w1 = acked w0 -> good c w1 k w' -> good c w0 k w'.
+Proof. intros E1 E2 [A [B [C0 E]]]. unfold good. conj; auto; congruence. Qed.
+
+Lemma rotate_points_good c w t2 t3 t4 : sinv c w -> clock w < t2 -> t2 < t3 -> t3 < t4 ->
+  Forall (good c w t4) (rotate_points c w t2 t3 t4).
+Proof.
+  intros Hi H2 H3 H4. unfold rotate_points.
+  assert (Hi1 : sinv c (set_clock w t2)) by (apply sinv_set_clock; [exact Hi|lia]).
+  destruct (rotate_due c w t2).
+  2:{ constructor; [|constructor]. unfold good. projs. conj; auto. lia. }
+  set (w2 := set_fopen (set_clock w t2) None).
+  assert (Hi2 : sinv c w2) by (apply sinv_close; exact Hi1).
+  assert (G2 : good c w t4 w2) by (unfold good, w2; projs; conj; auto; lia).
+  destruct (tsOnly c).
+  - set (w3 := set_clock w2 t3).
+    assert (Hi3 : sinv c w3) by (apply sinv_set_clock; [exact Hi2|unfold w2; projs; lia]).
+    assert (G3 : good c w t4 w3) by (unfold good, w3, w2; projs; conj; auto; lia).
+    destruct (fs_rename NPlain (NStamp t3) (files w3)) as [fs'|] eqn:Er.
+    2:{ constructor; [exact G2|]. constructor; [exact G3|constructor]. }
+    assert (Hin : In NPlain (names (files w2))).
+    { destruct (has_name NPlain (files w2)) eqn:Eh; [apply has_name_in; exact Eh|].
+      unfold fs_rename, w3 in Er. projs. rewrite Eh in Er. discriminate. }
+    destruct (sorted_plain_last _ (i_sorted _ _ Hi2) Hin) as [fs0 [p [E [Hp Hnp]]]].
+    assert (Hnf : is_foreign (f_name p) = false) by (rewrite Hp; reflexivity).
+    destruct (sinv_rename_last c w2 fs0 p t3 Hi2 E Hnf) as [R1 [R2 R3]]; [unfold w2; projs; lia|unfold w2; projs; discriminate|].
+    rewrite Hp in R1. unfold w3 in Er. projs. rewrite R1 in Er. inversion Er; subst fs'. clear Er.
+    set (w4 := set_files w3 (fs0 ++ [set_name p (NStamp t3)])).
+    assert (Hi4 : sinv c w4) by exact R2.
+    assert (G4 : good c w t4 w4).
+    { unfold good. split; [exact Hi4|]. unfold w4, D. projs. rewrite R3. unfold w3, w2. projs. conj; auto. lia. }
+    assert (Ho4 : fopen w4 = None) by reflexivity.
+    constructor; [exact G2|]. constructor; [exact G4|]. apply Forall_app. split.
+    + eapply Forall_impl; [|apply (prune_points_good c w4 t4 Hi4 Ho4)]; [|unfold w4, w3; projs; lia].
+      intros a Ha. destruct G4 as [_ [B [C0 _]]]. exact (good_trans _ _ _ _ _ B C0 Ha).
+    + destruct (prune_spec c w4 Hi4 Ho4) as [P1 [P2 [P3 [P4 P5]]]].
+      constructor; [|constructor]. unfold good.
+      split; [apply sinv_open; [exact P1|rewrite P5; unfold w4, w3; projs; lia]|].
+      rewrite D_open by exact P1. rewrite do_open_acked, do_open_clock, P2, P3, P4.
+      destruct G4 as [_ [B [C0 _]]]. conj; auto. lia.
+  - assert (Ho2 : fopen w2 = None) by reflexivity.
+    constructor; [exact G2|]. apply Forall_app. split.
+    + eapply Forall_impl; [|apply (prune_points_good c w2 t4 Hi2 Ho2)]; [|unfold w2; projs; lia].
+      intros a Ha. destruct G2 as [_ [B [C0 _]]]. exact (good_trans _ _ _ _ _ B C0 Ha).
+    + destruct (prune_spec c w2 Hi2 Ho2) as [P1 [P2 [P3 [P4 P5]]]].
+      constructor; [|constructor]. unfold good.
+      split; [apply sinv_open; [exact P1|rewrite P5; unfold w2; projs; lia]|].
+      rewrite D_open by exact P1. rewrite do_open_acked, do_open_clock, P2, P3, P4.
+      destruct G2 as [_ [B [C0 _]]]. conj; auto. lia.
+Qed.
+
+Lemma last_app_single {A} (l : list A) x d : last (l ++ [x]) d = x.
+Proof. induction l as [|a t IH]; [reflexivity|]. destruct t as [|b t']; [reflexivity|]. exact IH. Qed.
+Lemma rotate_points_last c w t2 t3 t4 : last (rotate_points c w t2 t3 t4) w = fst (fst (do_rotate c w t2 t3 t4)).
+Proof.
+  unfold rotate_points, do_rotate. destruct (rotate_due c w t2); [|reflexivity]. destruct (tsOnly c).
+  - destruct (fs_rename _ _ _); [|reflexivity].
+    rewrite app_assoc. rewrite last_app_single. reflexivity.
+  - rewrite app_assoc. rewrite last_app_single. reflexivity.
+Qed.
+Lemma rotate_points_nonempty c w t2 t3 t4 : rotate_points c w t2 t3 t4 <> [].
+Proof.
+  unfold rotate_points. destruct (rotate_due c w t2); [|discriminate]. destruct (tsOnly c); [destruct (fs_rename _ _ _)|]; discriminate.
+Qed.
+Lemma last_in {A} (l : list A) d : l <> [] -> In (last l d) l.
+Proof.
+  induction l as [|a t IH]; [congruence|]. intros _. destruct t as [|b t']; [left; reflexivity|].
+  right. apply IH. discriminate.
+Qed.
+Lemma rotate_spec c w t2 t3 t4 : sinv c w -> clock w < t2 -> t2 < t3 -> t3 < t4 ->
+  good c w t4 (fst (fst (do_rotate c w t2 t3 t4))).
+Proof.
+  intros Hi H2 H3 H4. rewrite <- rotate_points_last.
+  pose proof (rotate_points_good c w t2 t3 t4 Hi H2 H3 H4) as Hf. rewrite Forall_forall in Hf. apply Hf.
+  apply last_in. apply rotate_points_nonempty.
+Qed.
+Lemma rotate_ok_open c w t2 t3 t4 o : fopen w = Some o ->
+  snd (fst (do_rotate c w t2 t3 t4)) = true -> exists x, fopen (fst (fst (do_rotate c w t2 t3 t4))) = Some x.
+Proof.
+  intros Ho. unfold do_rotate. destruct (rotate_due c w t2); [|cbn; intros _; eexists; exact Ho]. destruct (tsOnly c).
+  - destruct (fs_rename _ _ _); cbn [fst snd]; [intros _; apply do_open_fopen|discriminate].
+  - cbn [fst snd]. intros _. apply do_open_fopen.
+Qed.
+
+(* ---------- one call ---------- *)
+Lemma do_reopen_eq c w t : do_reopen c w t = do_open c (set_fopen w None) t.
+Proof.
+  unfold do_reopen. destruct (fopen w) as [[i nm]|] eqn:Eo.
+  - destruct (has_name nm (files w)); [rewrite Eo|]; reflexivity.
+  - rewrite Eo. destruct w; cbn in *; subst; reflexivity.
+Qed.
+Lemma sinv_ack c w id : sinv c w -> sinv c (ack w id).
+Proof. intros [H1 H2 H3 H4 H5 H6 H7]. constructor; projs; auto. Qed.
+Lemma reopen_spec c w t : sinv c w -> clock w < t ->
+  sinv c (do_reopen c w t) /\ D (do_reopen c w t) = D w /\ acked (do_reopen c w t) = acked w /\ clock (do_reopen c w t) = t /\
+  exists x, fopen (do_reopen c w t) = Some x.
+Proof.
+  intros Hi Ht. rewrite do_reopen_eq. pose proof (sinv_close _ _ Hi) as Hc. conj.
+  - apply sinv_open; [exact Hc|exact Ht].
+  - rewrite D_open by exact Hc. reflexivity.
+  - rewrite do_open_acked. reflexivity.
+  - rewrite do_open_clock. reflexivity.
+  - apply do_open_fopen.
+Qed.
+
+Definition ackl (ok : bool) (id : N) : list N := if ok then [id] else [].
+
+Lemma write_spec c w id size t1 t2 t3 t4 t5 flt :
+  sinv c w -> clock w < t1 -> t1 < t2 -> t2 < t3 -> t3 < t4 -> t4 < t5 ->
+  let r := do_write c w id size t1 t2 t3 t4 t5 flt in
+  sinv c (fst (fst r)) /\ clock (fst (fst r)) <= t5 /\
+  (flt = nofault -> D (fst (fst r)) = D w ++ ackl (snd (fst r)) id /\ acked (fst (fst r)) = acked w ++ ackl (snd (fst r)) id).
+Proof.
+  intros Hi H1 H2 H3 H4 H5. unfold do_write.
+  assert (Hi1 : sinv c (do_open c w t1)) by (apply sinv_open; assumption).
+  assert (Hc1 : clock (do_open c w t1) < t2) by (rewrite do_open_clock; destruct (fopen w); lia).
+  pose proof (rotate_spec c _ t2 t3 t4 Hi1 Hc1 H3 H4) as [G1 [G2 [G3 G4]]].
+  destruct (do_open_fopen c w t1) as [o1 Ho1].
+  pose proof (rotate_ok_open c _ t2 t3 t4 o1 Ho1) as Hok.
+  rewrite D_open in G2 by exact Hi. rewrite do_open_acked in G3.
+  destruct (do_rotate c (do_open c w t1) t2 t3 t4) as [[w2 ok] rot]. cbn [fst snd] in *.
+  destruct ok; cbn [negb].
+  2:{ cbn [fst snd ackl]. rewrite !app_nil_r. conj; auto. lia. }
+  specialize (Hok eq_refl).
+  destruct (first_fails flt) eqn:Ef; cbn [negb].
+  - (* the retry branch *)
+    set (w3 := if leaves_partial flt then append_chunk w2 0%N 0 false else w2).
+    assert (Hi3 : sinv c w3 /\ clock w3 = clock w2).
+    { unfold w3. destruct (leaves_partial flt); [|auto]. destruct (append_spec c w2 0%N 0 false G1) as [A1 [_ [_ [A4 _]]]]. auto. }
+    destruct Hi3 as [Hi3 Hc3].
+    destruct (reopen_spec c w3 t5 Hi3) as [R1 [_ [_ [R4 _]]]]; [lia|].
+    destruct (second_fails flt); cbn [fst snd].
+    + conj; [exact R1|lia|]. intros ->. discriminate.
+    + destruct (append_spec c _ id size false R1) as [A1 [_ [_ [A4 _]]]]. conj.
+      * apply sinv_ack. exact A1.
+      * projs. rewrite A4. lia.
+      * intros ->. discriminate.
+  - destruct (append_spec c w2 id size true G1) as [A1 [A2 [A3 [A4 _]]]]. cbn [fst snd ackl]. conj.
+    + apply sinv_ack. exact A1.
+    + projs. rewrite A4. lia.
+    + intros _. unfold D in *. projs. rewrite (A2 Hok), A3, G2, G3. split; reflexivity.
+Qed.
+
+Lemma lookup_ino_last fs' p : ~ In (f_ino p) (inos fs') -> lookup_ino (f_ino p) (fs' ++ [p]) = Some p.
+Proof.
+  induction fs' as [|g t IH]; cbn [app lookup_ino inos map]; intros Hn.
+  - rewrite N.eqb_refl. reflexivity.
+  - destruct (N.eqb (f_ino g) (f_ino p)) eqn:E; [apply N.eqb_eq in E; exfalso; apply Hn; left; exact E|].
+    apply IH. intros H. apply Hn. right. exact H.
+Qed.
+
+Definition op_ack (c : cfg) (w : world) (o : op) : list N :=
+  match o with Write id _ _ _ _ _ _ _ => ackl (step_ok c w o) id | _ => [] end.
+
+Theorem step_spec c w o : special c = false -> sinv c w -> op_incr (clock w) o ->
+  sinv c (step c w o) /\ clock (step c w o) = op_last o /\
+  (fault_free_op o -> D (step c w o) = D w ++ op_ack c w o /\ acked (step c w o) = acked w ++ op_ack c w o).
+Proof.
+  intros Hsp Hi Hinc. unfold step, op_ack, step_ok. destruct o as [id size t1 t2 t3 t4 t5 flt|t|t|t]; cbn [step3 op_last]; rewrite ?Hsp.
+  - cbn [op_incr] in Hinc. destruct Hinc as [H1 [H2 [H3 [H4 H5]]]].
+    pose proof (write_spec c w id size t1 t2 t3 t4 t5 flt Hi H1 H2 H3 H4 H5) as W. cbn zeta in W.
+    destruct (do_write c w id size t1 t2 t3 t4 t5 flt) as [[w' ok] rot]. cbn [fst snd] in *.
+    destruct W as [W1 [W2 W3]]. conj.
+    + apply sinv_set_clock; assumption.
+    + reflexivity.
+    + intros Hff. cbn [fault_free_op] in Hff. destruct (W3 Hff) as [W4 W5]. unfold D in *. projs. auto.
+  - cbn [op_incr] in Hinc. destruct (reopen_spec c w t Hi Hinc) as [R1 [R2 [R3 [R4 _]]]]. cbn [fst snd]. rewrite !app_nil_r. auto.
+  - cbn [op_incr] in Hinc. unfold active_file.
+    destruct (fopen w) as [[i nm]|] eqn:Eo.
+    2:{ cbn [fst snd]. rewrite !app_nil_r. conj; auto. apply sinv_set_clock; [exact Hi|lia]. }
+    destruct (i_open _ _ Hi i nm Eo) as [fs' [p [E [Hp Hnf]]]].
+    assert (Hl : lookup_ino i (files w) = Some p).
+    { rewrite E, <- Hp. apply lookup_ino_last. apply sorted_inos_last. rewrite <- E. exact (i_inos _ _ Hi). }
+    rewrite Hl.
+    destruct (sinv_rename_last c w fs' p t Hi E Hnf Hinc) as [R1 [R2 R3]].
+    { intros i0 nm0 Hs. rewrite Eo in Hs. inversion Hs. congruence. }
+    rewrite R1. cbn [fst snd]. rewrite !app_nil_r. conj; auto. intros _. unfold D. projs. rewrite R3. auto.
+  - cbn [op_incr] in Hinc. cbn [fst snd]. rewrite !app_nil_r. conj; auto. apply sinv_set_clock; [exact Hi|lia].
+Qed.
+
+(* ---------- histories ---------- *)
+Lemma mk_foreign_props i fids :
+  Forall (fun n => is_foreign n = true) (names (mk_foreign i fids)) /\
+  StronglySorted N.lt (inos (mk_foreign i fids)) /\
+  (forall j, In j (inos (mk_foreign i fids)) -> (i <= j < i + N.of_nat (length fids))%N) /\
+  (forall f, In f (mk_foreign i fids) -> f_data f = []).
+Proof.
+  revert i. induction fids as [|k r IH]; intros i; cbn [mk_foreign names inos map length].
+  - conj; [constructor|constructor|intros ? []|intros ? []].
+  - destruct (IH (N.succ i)) as [A1 [A2 [A3 A4]]]. conj.
+    + constructor; [reflexivity|exact A1].
+    + constructor; [exact A2|]. apply Forall_forall. intros j Hj. specialize (A3 j Hj). cbn [f_ino]. lia.
+    + intros j [Hj|Hj]; [cbn [f_ino] in Hj; lia|]. specialize (A3 j Hj). lia.
+    + intros f [<-|Hf]; [reflexivity|exact (A4 f Hf)].
+Qed.
+Lemma all_foreign_sorted l : Forall (fun n => is_foreign n = true) l -> StronglySorted nlt l.
+Proof.
+  induction l as [|a t IH]; intros Hf; [constructor|]. inversion Hf; subst. constructor; [apply IH; assumption|].
+  apply Forall_forall. intros x _. destruct a; try discriminate. exact I.
+Qed.
+Lemma sinv_init c fids dm k0 : sinv c (w_init fids dm k0).
+Proof.
+  destruct (mk_foreign_props 1%N fids) as [A1 [A2 [A3 A4]]]. unfold w_init. constructor; projs.
+  - apply all_foreign_sorted. exact A1.
+  - intros t Hin. rewrite Forall_forall in A1. specialize (A1 _ Hin). discriminate.
+  - discriminate.
+  - intros _ Hin. rewrite Forall_forall in A1. specialize (A1 _ Hin). discriminate.
+  - intros f Hf _. exact (A4 f Hf).
+  - exact A2.
+  - intros i Hi. specialize (A3 i Hi). lia.
+Qed.
+Lemma D_init fids dm k0 : D (w_init fids dm k0) = [].
+Proof.
+  unfold D, w_init. projs. cbn [app]. destruct (mk_foreign_props 1%N fids) as [_ [_ [_ A4]]].
+  induction (mk_foreign 1%N fids) as [|f t IH]; [reflexivity|]. rewrite contents_cons, (A4 f (or_introl eq_refl)). cbn [app].
+  apply IH. intros g Hg. apply A4. right. exact Hg.
+Qed.
+
+Lemma run_from_spec c ops : special c = false -> fault_free ops -> forall w,
+  sinv c w -> acked w = D w -> clock_ok (clock w) ops ->
+  sinv c (run_from c w ops) /\ acked (run_from c w ops) = D (run_from c w ops).
+Proof.
+  intros Hsp Hff. induction Hff as [|o r Ho Hr IH]; intros w Hi Ha Hc; cbn [run_from fold_left]; [auto|].
+  cbn [clock_ok] in Hc. destruct Hc as [Hc1 Hc2].
+  destruct (step_spec c w o Hsp Hi Hc1) as [S1 [S2 S3]]. destruct (S3 Ho) as [S4 S5].
+  apply IH; [exact S1|congruence|rewrite S2; exact Hc2].
+Qed.
+Lemma run_spec c fids dm k0 ops : special c = false -> fault_free ops -> clock_ok k0 ops ->
+  sinv c (run c fids dm k0 ops) /\ acked (run c fids dm k0 ops) = D (run c fids dm k0 ops).
+Proof.
+  intros Hsp Hff Hc. apply run_from_spec; auto; [apply sinv_init|rewrite D_init; reflexivity].
+Qed.
